@@ -7,6 +7,7 @@ import (
 	"os"
 	"sort"
 	"strconv"
+	"strings"
 
 	"github.com/parquet-go/parquet-go"
 )
@@ -44,6 +45,7 @@ type c10Row struct {
 	Pad string    `parquet:"pad"`
 	P   *c10Inner `parquet:"p"` // payload whose nulls sit at different depths
 	L   []int32   `parquet:"l"`
+	RK  []int64   `parquet:"rk"` // a repeated column that can be declared as sorting column: lists sharing their first elements
 }
 
 func c10Sorting(cs []c10Col) []parquet.SortingColumn {
@@ -73,6 +75,9 @@ func c10RowOf(id int, keys []int) c10Row {
 	}
 	for j := 0; j < id%3; j++ {
 		row.L = append(row.L, int32(id*10+j))
+	}
+	if len(keys) > 1 {
+		row.RK = []int64{int64(keys[0]), int64(keys[1]), int64(id % 2)}[:1+(id+keys[0])%3]
 	}
 	if keys[0] != 0 {
 		x := int64(keys[0])*7 - 10
@@ -106,6 +111,7 @@ func c10Keys(row c10Row) []int {
 	if !c10Intact(row) {
 		return []int{alien, alien}
 	}
+	defer func() { recover() }()
 	k1, k2 := 0, 0
 	if row.K1 != nil {
 		x := *row.K1 + 10
@@ -164,7 +170,15 @@ func c10Main(args []string) error {
 		tr.begin(ev{"sc": sc.ID, "var": variant, "cs": sc.Cs, "rows": keys, "dedupe": dedupe, "scale": scale, "batch": batch})
 
 		comparator := schema.Comparator(sorting...)
+		// ascending only: for descending lists the comparator keeps "shorter first" for prefixes while the buffers
+		// reverse the whole order, and nothing says which of the two a descending list column means
+		byRK := []parquet.SortingColumn{parquet.Ascending("rk")}
+		rkComparator := schema.Comparator(byRK...)
 		emit := func(path string, out []c10Row, meta [][]int, dd bool, err error, pan bool, msg string) {
+			comparator, by := comparator, "keys"
+			if strings.HasSuffix(path, "/by-rk") {
+				comparator, by = rkComparator, "rk"
+			}
 			ids, ks, cmps := []int{}, [][]int{}, []int{}
 			for i := range out {
 				ids = append(ids, int(out[i].ID))
@@ -175,7 +189,7 @@ func c10Main(args []string) error {
 					cmps = append(cmps, comparator(a, b))
 				}
 			}
-			e := ev{"path": path, "ids": ints(ids), "keys": ks, "cmp": ints(cmps), "dedupe": b2i(dd), "err": b2i(err != nil || pan)}
+			e := ev{"path": path, "by": by, "ids": ints(ids), "keys": ks, "cmp": ints(cmps), "dedupe": b2i(dd), "err": b2i(err != nil || pan)}
 			if len(ks) == 0 {
 				e["keys"] = [][]int{}
 			}
@@ -277,6 +291,29 @@ func c10Main(args []string) error {
 				return nil, nil, false, err
 			}
 			return c10ReadFile(out.Bytes(), readAll)
+		})
+		// the repeated column as the sorting column: the order of lists is what Schema.Comparator says
+		rkCfg := parquet.SortingRowGroupConfig(parquet.SortingColumns(byRK...))
+		run("GenericBuffer[T]/by-rk", func() ([]c10Row, [][]int, bool, error) {
+			b := parquet.NewGenericBuffer[c10Row](rkCfg)
+			if err := writeBatches(func(p []c10Row) error { _, e := b.Write(p); return e }); err != nil {
+				return nil, nil, false, err
+			}
+			sort.Sort(b)
+			out, err := readAll(b.Rows())
+			return out, nil, false, err
+		})
+		run("SortingWriter/by-rk", func() ([]c10Row, [][]int, bool, error) {
+			out := new(bytes.Buffer)
+			w := parquet.NewSortingWriter[c10Row](out, 3, parquet.SortingWriterConfig(parquet.SortingColumns(byRK...)))
+			if err := writeBatches(func(p []c10Row) error { _, e := w.Write(p); return e }); err != nil {
+				return nil, nil, false, err
+			}
+			if err := w.Close(); err != nil {
+				return nil, nil, false, err
+			}
+			rows, _, _, err := c10ReadFile(out.Bytes(), readAll)
+			return rows, nil, false, err
 		})
 		for _, runSize := range []int64{1, 2, 3, 1 << 20} {
 			if runSize == 3 && r.intn(2) == 0 {
